@@ -327,8 +327,13 @@ class TextFormat:
                 Decimal(1), rounding=ROUND_HALF_UP,
                 context=self.QUANTIZE_CONTEXT))
             left_side = f'{number_value:{thousands}}'
-            right_side = None
+            left_num_format, right_side = number_format, None
         left_side = left_side.lstrip('0')
+        if thousands == ',' and left_num_format.lstrip('#').startswith('00'):
+            # the zeros that pad the number are grouped like its digits
+            forced = len(left_num_format.lstrip('#'))
+            left_side = '{:0{},}'.format(
+                int(left_side.replace(',', '') or 0), forced + (forced - 1) // 3)
 
         tokens_iter = iter(tokenized.tokens)
         left_side_tokens = tuple(it.takewhile(lambda t: t.token != '.', tokens_iter))
